@@ -182,10 +182,10 @@ def array_read(expr, alias=None):
     """(array descriptor, index text) if expr reads one element of a numpy array through PyArray_GETPTR1 (or the same address written
     out), directly or through a file-local accessor helper whose body is such a read of (parameter 0)[parameter 1]; alias: locals that
     stand for a parameter / member (pointer_aliases)"""
-    return resolve_alias(_array_read(expr), alias)
+    return resolve_alias(_array_read(expr, alias), alias)
 
 
-def _array_read(expr):
+def _array_read(expr, alias=None):
     e0 = strip(expr)
     if e0.get("kind") == "UnaryOperator" and e0.get("opcode") == "*":
         e1 = strip(e0["inner"][0])
@@ -204,7 +204,7 @@ def _array_read(expr):
                         inner = r_
             if inner is not None and inner[0] == ("param", hp[0]) and inner[1] == hp[1]:
                 return ref_desc(args[0]), render(args[1])
-    return _array_read_direct(expr)
+    return _array_read_direct(expr, alias)
 
 
 STRIDE_FNS = ("PyArray_STRIDES", "PyArray_STRIDE")
@@ -237,10 +237,11 @@ def _stride0_of(e):
     return None
 
 
-def _array_read_direct(expr):
+def _array_read_direct(expr, alias=None):
     """(array, index text) of `bytes(a) + index * stride0(a)` (either operand order, PyArray_BYTES or PyArray_DATA for the base,
     PyArray_STRIDES(a)[0] or PyArray_STRIDE(a, 0) for the stride - the expansion of PyArray_GETPTR1(a, index) and its hand-written
-    spellings); None if base and stride belong to different arrays or the stride is not that of dimension 0"""
+    spellings).  An address put together from the base of one array and the stride of another, or from a stride of another dimension,
+    is recognised as such: the descriptor is ('mixed', text), which equals no array a rule asks for; None when no such address is found"""
     arr = idx = sarr = None
     for x in walk(expr):
         if x.get("kind") == "CallExpr" and callee_name(x) in ("PyArray_BYTES", "PyArray_DATA") and cfront.call_args(x):
@@ -250,12 +251,19 @@ def _array_read_direct(expr):
             for st_, other in ((b, a), (a, b)):
                 sa = _stride0_of(st_)
                 if sa is not None:
-                    if sa == "other":
-                        return None
                     idx, sarr = render(other), sa
                     break
-    if arr is None or idx is None or sarr != arr:
+    if arr is None or idx is None:
         return None
+    if sarr == "other":
+        # only a literal other dimension is a recognised mismatch; anything else is not read
+        lit = [y for y in walk(expr) if y.get("kind") == "CallExpr" and callee_name(y) == "PyArray_STRIDE" and len(cfront.call_args(y)) == 2
+               and strip(cfront.call_args(y)[1]).get("kind") == "IntegerLiteral"]
+        lit += [y for y in walk(expr) if y.get("kind") == "ArraySubscriptExpr" and callee_name(strip(y["inner"][0])) == "PyArray_STRIDES"
+                and strip(y["inner"][1]).get("kind") == "IntegerLiteral"]
+        return (("mixed", "stride of another dimension"), idx) if lit else None
+    if sarr != arr and resolve_alias((sarr, idx), alias) != resolve_alias((arr, idx), alias):
+        return (("mixed", "base of %s, stride of %s" % (arr[1], sarr[1])), idx)
     return arr, idx
 
 
